@@ -42,6 +42,7 @@ Json gen(sim::Rng& rng, int tier)
             int kind = static_cast<int>(rng.below(10));
             q["kind"] = kind < 3 ? "size" : kind < 5 ? "async" : kind < 7 ? "file" : kind < 9 ? "stream" : "astream";
             if (rng.chance(0.1)) q["kind"] = "hints";
+            else if (rng.chance(0.1)) q["kind"] = "astreamp";
             q["tag"] = static_cast<long long>(tag += 10);
             q["size"] = sizes[rng.below(sizeof sizes / sizeof sizes[0])];
             q["chunks"] = static_cast<int>(rng.range(1, 5));
@@ -102,7 +103,7 @@ void run(const Json& plan)
                 size = std::max<size_t>(1, size);
                 wt.target = "/file/" + std::to_string(tag);
                 wt.body = actors::pattern(tag, size);
-            } else if (wt.kind == "stream" || wt.kind == "astream" || wt.kind == "hints") {
+            } else if (wt.kind == "stream" || wt.kind == "astream" || wt.kind == "hints" || wt.kind == "astreamp") {
                 int ch = std::max(1, std::min(6, static_cast<int>(q.num("chunks", 2))));
                 size_t n = std::max<size_t>(1, std::min<size_t>(size, 20000));
                 wt.target = "/" + wt.kind + "/" + std::to_string(ch) + "/" + std::to_string(n) + "/" + std::to_string(tag);
@@ -167,7 +168,7 @@ void run(const Json& plan)
                 while (d < resp.body.size() && d < wt.body.size() && resp.body[d] == wt.body[d]) d++;
                 r.violation("C06.http:body-differs:" + wt.kind, what + " has a body of " + std::to_string(resp.body.size()) + " bytes (expected " + std::to_string(wt.body.size()) + "), first difference at offset " + std::to_string(d));
             }
-            if ((wt.kind == "stream" || wt.kind == "astream" || wt.kind == "hints") != resp.chunked) r.violation("C06.http:wrong-framing:" + wt.kind, what + (resp.chunked ? " is chunked" : " is not chunked"));
+            if ((wt.kind == "stream" || wt.kind == "astream" || wt.kind == "hints" || wt.kind == "astreamp") != resp.chunked) r.violation("C06.http:wrong-framing:" + wt.kind, what + (resp.chunked ? " is chunked" : " is not chunked"));
             // the promise of the send: fulfilled once with the bytes of the response on the wire
             for (auto& sr : w.sends) {
                 if (sr.what != wt.target) continue;
